@@ -32,6 +32,7 @@ type Front struct {
 	HandlerReturns bool    `json:"handler_returns,omitempty"` // HandleErr returns instead of panicking
 	NoSkipConst    bool    `json:"no_skip_const,omitempty"`
 	EarlyWrites    []int   `json:"early_writes,omitempty"`   // every file is written (and the result dropped) after these body ordinals
+	LateRef        []int   `json:"late_ref,omitempty"`       // after the first round of writes: a new function (a name no import can take) in file LateRef[2k] referring to a package, preferably one the file referenced before only through a discarded operand
 	LateForce      []int   `json:"late_force,omitempty"`     // after the first round of writes: force-import path LateForce[2k+1] into file LateForce[2k] (no declaration follows)
 	Rewrites       int     `json:"rewrites,omitempty"`       // extra rounds of writing every file at the end (the last round counts)
 	WriteOrder     []int   `json:"write_order,omitempty"`    // order in which the files are written at the end (permutation code)
@@ -203,6 +204,8 @@ type Result struct {
 	FirstFile  string              // the file that was current at the start (force-imports go there)
 	XGoBuiltin bool                // the XGo-style configuration was in effect
 	LateForced map[string][]string // file -> paths force-imported after the first write
+	LateRefs    [][2]string         // (file, path) referenced by a function declared after the first write
+	DiscardedIn [][2]string         // (file, path) of every discarded reference
 }
 
 // Build compiles p under front f. Every build has its own file set and importer.
@@ -460,7 +463,7 @@ func (e *Env) build(p *prog.Program, f *Front, hooks *minicl.Hooks, ce *CorpusEn
 			}
 		}
 	}
-	if len(f.LateForce) >= 2 && len(worder) > 0 {
+	if (len(f.LateForce) >= 2 || len(f.LateRef) >= 2) && len(worder) > 0 {
 		// every file is written once, then more packages are force-imported, then the
 		// files are written again
 		for _, name := range worder {
@@ -482,6 +485,42 @@ func (e *Env) build(p *prog.Program, f *Front, hooks *minicl.Hooks, ce *CorpusEn
 			c.Pkg.RestoreCurFile(old)
 			r.LateForced[file] = append(r.LateForced[file], path)
 			r.FaultFired["late_force_import"]++
+		}
+	}
+	if len(f.LateRef) >= 2 && len(worder) > 0 && r.Rejected == "" {
+		// the files have been written once; now a function is added whose body refers to a
+		// package - one whose only earlier reference in that file was built and discarded,
+		// if there is such a file - and the files are written again. The function's name
+		// cannot collide with an import (the names of imports are fixed by the first write).
+		for k := 0; k+1 < len(f.LateRef); k += 2 {
+			file := worder[mod(f.LateRef[k], len(worder))]
+			path := DiscardPaths[mod(f.LateRef[k+1], len(DiscardPaths))]
+			if len(r.DiscardedIn) > 0 {
+				d := r.DiscardedIn[mod(f.LateRef[k+1], len(r.DiscardedIn))]
+				for _, n := range worder {
+					if n == d[0] {
+						file, path = d[0], d[1]
+					}
+				}
+			}
+			old, err := c.Pkg.SetCurFile(file, true)
+			if err != nil {
+				continue
+			}
+			func() {
+				defer func() {
+					if rec := recover(); rec != nil {
+						r.FaultFired["late_ref_rejected"]++
+					}
+				}()
+				ref := c.Pkg.Import(path).Ref(discardMember[path])
+				fn := c.Pkg.NewFunc(nil, fmt.Sprintf("ZzLate%d", k/2), nil, nil, false)
+				fn.BodyStart(c.Pkg).VarRef(nil).Val(ref).Assign(1, 1).EndStmt().End()
+				c.RefTags = append(c.RefTags, minicl.RefTag{File: file, Path: path, Name: discardMember[path]})
+				r.LateRefs = append(r.LateRefs, [2]string{file, path})
+				r.FaultFired["late_reference"]++
+			}()
+			c.Pkg.RestoreCurFile(old)
 		}
 	}
 	for round := 0; round < f.Rewrites; round++ {
@@ -577,6 +616,9 @@ func (in *injector) fire(c *minicl.Compiler, ft Fault) {
 		path := DiscardPaths[mod(ft.Arg, len(DiscardPaths))]
 		ref := c.Pkg.Import(path).Ref(discardMember[path])
 		in.r.Discarded = append(in.r.Discarded, path)
+		if cf := c.Pkg.CurFile(); cf != nil {
+			in.r.DiscardedIn = append(in.r.DiscardedIn, [2]string{cf.Name(), path})
+		}
 		c.B.Val(ref)
 		if ft.Kind == "discard_ref" {
 			c.B.Discard(1)
